@@ -37,13 +37,13 @@ def load_corpus(prop):
     return scs
 
 
-def classify_known(prop, mod, sc, findings):
+def classify_known(prop, mod, sc, findings, verdict=None):
     """Return the finding entry (status known) whose classifier matches this failing scenario."""
     for f in findings:
         if f["property"] != prop or f.get("status") != "known":
             continue
         pred = getattr(mod, "CLASSIFIERS", {}).get(f["classifier"])
-        if pred and pred(sc):
+        if pred and (pred(sc, verdict) if pred.__code__.co_argcount == 2 else pred(sc)):
             return f
     return None
 
@@ -95,7 +95,7 @@ def generic(mod, tier, seed, replay):
     failing.sort(key=lambda x: len(json.dumps(x[0])))
     n_unlisted = 0
     for s, o, v in failing:
-        f = classify_known(prop, mod, s, findings)
+        f = classify_known(prop, mod, s, findings, v)
         if f is not None:
             known_hit.setdefault(f["id"], (f, s, o))
             continue
